@@ -3,8 +3,6 @@ C17 — database: password-gated connections, connection-gated queries, restorab
 Property theorems only; the model is `Model/Database.lean`, the regenerated tables are `Gen/Database.lean`.
 -/
 import PrimaiteModel.Model.Database
-import PrimaiteModel.Gen.Database
-import PrimaiteModel.Gen.DatabaseTr
 import PrimaiteModel.Lemmas.DatabaseReach
 namespace Primaite.Database
 
@@ -222,9 +220,12 @@ theorem restoreBackup_closed (s : Server) (b : Backup) (pq pr k : Bool) :
       else match b.stored with
         | some bh =>
           if pq && b.serves && k && pr && s.ftpcAct then
-            ({ s with ftpConn := true, downloads := some bh, dlFolder := true, file := some bh, folder := true, health := .good }, true)
-          else ({ s with downloads := none, ftpConn := s.ftpConn || (s.ftpcAct && pq && b.serves) }, false)
-        | none => ({ s with downloads := none, ftpConn := s.ftpConn || (s.ftpcAct && pq && b.serves) }, false) := by
+            ({ s with ftpConn := true, downloads := some bh, dlFolder := true, file := some bh, folder := true, health := .good,
+                      dlDeleted := s.dlDeleted ++ s.downloads.toList, fileDeleted := s.fileDeleted ++ s.file.toList }, true)
+          else ({ s with downloads := none, dlDeleted := s.dlDeleted ++ s.downloads.toList,
+                         ftpConn := s.ftpConn || (s.ftpcAct && pq && b.serves) }, false)
+        | none => ({ s with downloads := none, dlDeleted := s.dlDeleted ++ s.downloads.toList,
+                            ftpConn := s.ftpConn || (s.ftpcAct && pq && b.serves) }, false) := by
   unfold restoreBackup ftpRequestFile Server.ftpcAct
   cases hc : s.canAct <;> cases hbc : s.backupConfigured <;> cases hft : s.ftpc <;> simp [hc, hbc, hft]
   rename_i f
@@ -266,7 +267,9 @@ theorem C17_restore_ignores_leftovers (s : Server) (b : Backup) (pq pr k : Bool)
     (restoreBackup { s with downloads := d, dlFolder := f } b pq pr k).1.health = (restoreBackup s b pq pr k).1.health ∧
     (restoreBackup { s with downloads := d, dlFolder := f } b pq pr k).1.conns = (restoreBackup s b pq pr k).1.conns ∧
     ((restoreBackup s b pq pr k).2 = true →
-      (restoreBackup { s with downloads := d, dlFolder := f } b pq pr k).1 = (restoreBackup s b pq pr k).1) := by
+      (restoreBackup { s with downloads := d, dlFolder := f } b pq pr k).1.downloads = (restoreBackup s b pq pr k).1.downloads ∧
+      { (restoreBackup { s with downloads := d, dlFolder := f } b pq pr k).1 with dlDeleted := [] } =
+        { (restoreBackup s b pq pr k).1 with dlDeleted := [] }) := by
   rw [restoreBackup_closed, restoreBackup_closed]
   have e1 : Server.canAct { s with downloads := d, dlFolder := f } = s.canAct := rfl
   have e2 : Server.ftpcAct { s with downloads := d, dlFolder := f } = s.ftpcAct := rfl
@@ -285,7 +288,8 @@ kept.  (Finding F-33: before that repair the live file was deleted when the back
 theorem C17_failed_restore_changes_nothing (s : Server) (b : Backup) (pq pr k : Bool)
     (h : (restoreBackup s b pq pr k).2 = false) :
     (restoreBackup s b pq pr k).1 = { s with ftpConn := (restoreBackup s b pq pr k).1.ftpConn,
-                                             downloads := (restoreBackup s b pq pr k).1.downloads } ∧
+                                             downloads := (restoreBackup s b pq pr k).1.downloads,
+                                             dlDeleted := (restoreBackup s b pq pr k).1.dlDeleted } ∧
     ((restoreBackup s b pq pr k).1.downloads = s.downloads ∨ (restoreBackup s b pq pr k).1.downloads = none) := by
   revert h
   rw [restoreBackup_closed]
@@ -312,7 +316,8 @@ example :
     let r := backupDatabase s ({} : Backup) true
     let dmg := (processSql r.1 .delete).1
     (restoreBackup dmg r.2.1 true true) =
-      ({ dmg with file := some .good, downloads := some .good, dlFolder := true, ftpConn := true }, true) := by decide
+      ({ dmg with file := some .good, downloads := some .good, dlFolder := true, ftpConn := true,
+                  fileDeleted := [.compromised] }, true) := by decide
 /-- a second restore over a CORRUPT leftover still yields the (GOOD) backup -/
 example :
     let s : Server := {}
@@ -360,7 +365,8 @@ theorem C17_saturated_transfer (s : Server) (b : Backup) (pq pr : Bool) :
     ((backupDatabase s b pq false).2.2 = false ∧ (backupDatabase s b pq false).2.1 = b) ∧
     ((restoreBackup s b pq pr false).2 = false ∧
       (restoreBackup s b pq pr false).1 = { s with ftpConn := (restoreBackup s b pq pr false).1.ftpConn,
-                                                   downloads := (restoreBackup s b pq pr false).1.downloads }) := by
+                                                   downloads := (restoreBackup s b pq pr false).1.downloads,
+                                                   dlDeleted := (restoreBackup s b pq pr false).1.dlDeleted }) := by
   have hb := C17_backup_stores s b pq false
   have h1 : (backupDatabase s b pq false).2.2 = false := by
     cases hr : (backupDatabase s b pq false).2.2 with
@@ -411,7 +417,8 @@ theorem C17_blocked_restore (s : Server) (b : Backup) (pq pr k : Bool)
     (h : (pq && b.serves && pr && k && s.ftpcAct) = false) :
     (restoreBackup s b pq pr k).2 = false ∧
     (restoreBackup s b pq pr k).1 = { s with ftpConn := (restoreBackup s b pq pr k).1.ftpConn,
-                                             downloads := (restoreBackup s b pq pr k).1.downloads } ∧
+                                             downloads := (restoreBackup s b pq pr k).1.downloads,
+                                             dlDeleted := (restoreBackup s b pq pr k).1.dlDeleted } ∧
     (restoreBackup s b pq pr k).1.file = s.file ∧ (restoreBackup s b pq pr k).1.health = s.health ∧
     (restoreBackup s b pq pr k).1.conns = s.conns := by
   have h2 : (restoreBackup s b pq pr k).2 = false := by
@@ -530,38 +537,6 @@ def SvcState.name : SvcState → String
 def FHealth.name : FHealth → String
   | .good => "GOOD" | .compromised => "COMPROMISED" | .corrupt => "CORRUPT"
 
-/-- The model's ladder uses the status codes, the health set, the password operator and the capacity operator the
-source has now. -/
-theorem C17_gen_connect :
-    Gen.Database.connectNotRunning = 404 ∧ Gen.Database.connectUnavailable = 503 ∧ Gen.Database.connectUnauthorised = 401 ∧
-    Gen.Database.connectAddFailed = 500 ∧ Gen.Database.connectOk = 200 ∧ Gen.Database.connectDefault = 500 ∧
-    Gen.Database.connectPasswordOp = "==" ∧ Gen.Database.capacityOp = ">=" ∧
-    Gen.Database.connectIdGeneratedBeforeAdd = true ∧
-    (∀ h : Health, healthAcceptsConnect h = Gen.Database.connectHealthAccept.contains h.name) ∧
-    (∀ h : Health, (h.name, match h with | .unused => 0 | .good => 1 | .fixing => 2 | .compromised => 3 | .overwhelmed => 4)
-        ∈ Gen.Database.healthValues) ∧ Gen.Database.healthValues.length = 5 := by
-  refine ⟨by decide, by decide, by decide, by decide, by decide, by decide, by decide, by decide, by decide, ?_, ?_, by decide⟩
-  · intro h; cases h <;> decide
-  · intro h; cases h <;> decide
-
-/-- `_process_sql` and the gate in `receive`. -/
-theorem C17_gen_sql :
-    Gen.Database.receiveGuardFirst = true ∧ Gen.Database.sqlUnknownConnection = 401 ∧ Gen.Database.receiveDefault = 500 ∧
-    Gen.Database.sqlMissingFile = (processSql { file := none } .select).2 ∧
-    Gen.Database.sqlUnhealthy = (processSql { health := .compromised } .select).2 ∧
-    Gen.Database.selectGood = (processSql {} .select).2 ∧
-    Gen.Database.selectCorrupt = (processSql { file := some .corrupt } .select).2 ∧
-    Gen.Database.selectElse = (processSql { file := some .compromised } .select).2 ∧
-    Gen.Database.deleteStatus = (processSql {} .delete).2 ∧
-    some Gen.Database.deleteSets = (processSql {} .delete).1.file.map FHealth.name ∧
-    Gen.Database.encryptStatus = (processSql {} .encrypt).2 ∧
-    some Gen.Database.encryptSets = (processSql {} .encrypt).1.file.map FHealth.name ∧
-    Gen.Database.insertStatus = (processSql {} .insert).2 ∧
-    Gen.Database.pgstatStatus = (processSql {} .pgstat).2 ∧
-    Gen.Database.unknownQueryStatus = (processSql {} .other).2 ∧
-    Gen.Database.sqlBranchOrder = ["SELECT", "DELETE", "ENCRYPT", "INSERT", "SELECT * FROM pg_stat_activity"] := by
-  decide
-
 def svcReqName : SvcReq → String
   | .stop => "stop" | .start => "start" | .pause => "pause" | .resume => "resume" | .restart => "restart"
   | .disable => "disable" | .enable => "enable" | .fix => "fix" | .compromise => "compromise" | .scan => "scan"
@@ -571,21 +546,6 @@ def modelValidator : SvcReq → Option SvcState
   | .stop => some .running | .start => some .stopped | .pause => some .running | .resume => some .paused
   | .restart => some .running | .disable => none | .enable => some .disabled | .fix => some .running | .compromise => none
   | .scan => some .running
-
-/-- Validators of the service request manager, defaults, fix acceptance, the tick at which the backup is taken. -/
-theorem C17_gen_lifecycle :
-    (∀ r : SvcReq, r ≠ .compromise →
-        (svcReqName r, match modelValidator r with | some st => st.name | none => "-") ∈ Gen.Database.requestValidators) ∧
-    Gen.Database.fixAccepts = ["COMPROMISED", "GOOD"] ∧
-    Gen.Database.fixingDurationDefault = ({} : Server).fixDur ∧
-    Gen.Database.restartDurationDefault = ({} : Server).restartDur ∧
-    Gen.Database.maxSessionsDefault = ({} : Server).maxSessions ∧
-    Gen.Database.backupAtTimestep = 1 ∧ Gen.Database.restoreWhenFixCompletes = true ∧
-    Gen.Database.methodGuards = [("stop", ["RUNNING", "PAUSED"], "STOPPED"), ("pause", ["RUNNING"], "PAUSED"),
-      ("resume", ["PAUSED"], "RUNNING"), ("restart", ["RUNNING", "PAUSED"], "RESTARTING"), ("enable", ["DISABLED"], "STOPPED"),
-      ("start", ["STOPPED"], "RUNNING")] := by
-  refine ⟨?_, by decide, by decide, by decide, by decide, by decide, by decide, by decide⟩
-  intro r hr; cases r <;> first | decide | exact absurd rfl hr
 
 /-- The request model agrees with its validator table: a request whose validator state differs from the current
 state (or whose node is not ON) is rejected and changes nothing. -/
@@ -762,12 +722,25 @@ theorem admin_frame (s : Server) (a : Admin) :
 
 /-- File-system operations on downloads/ touch nothing but downloads/. -/
 theorem dl_frame (s : Server) (a : DlOp) :
-    (s.dl a).1 = { s with downloads := (s.dl a).1.downloads, dlFolder := (s.dl a).1.dlFolder } := by
+    (s.dl a).1 = { s with downloads := (s.dl a).1.downloads, dlFolder := (s.dl a).1.dlFolder, dlDeleted := (s.dl a).1.dlDeleted } := by
   cases a <;> unfold Server.dl <;> dsimp only <;> (repeat' split) <;> rfl
+
+/-- File-system requests touch nothing but the two folders (live file, deleted copies, folder present). -/
+theorem fsr_frame (s : Server) (db : Bool) (a : FsAct) :
+    (s.fsr db a).1 = { s with file := (s.fsr db a).1.file, folder := (s.fsr db a).1.folder, fileDeleted := (s.fsr db a).1.fileDeleted,
+                              downloads := (s.fsr db a).1.downloads, dlFolder := (s.fsr db a).1.dlFolder,
+                              dlDeleted := (s.fsr db a).1.dlDeleted } ∧
+    (db = false → (s.fsr db a).1.file = s.file) := by
+  unfold Server.fsr
+  split
+  · exact ⟨rfl, fun _ => rfl⟩
+  · cases db
+    · exact ⟨rfl, fun _ => rfl⟩
+    · exact ⟨rfl, fun h => by cases h⟩
 
 /-- A re-install that is refused or raises changes nothing; one that goes through yields an EMPTY connection table and
 leaves the id counter alone (the new instance draws fresh uuids). -/
-theorem reinstall_frame (s : Server) (cfg : Option (Option Nat × Bool)) :
+theorem reinstall_frame (s : Server) (cfg : Option InstCfg) :
     ((s.reinstall cfg).2 ≠ .done → (s.reinstall cfg).1 = s) ∧
     ((s.reinstall cfg).2 = .done → (s.reinstall cfg).1.conns = [] ∧ s.file = none ∧
       (s.reinstall cfg).1.file = some .good ∧ (s.reinstall cfg).1.maxSessions = 100) ∧
@@ -793,6 +766,10 @@ theorem apply_conns_nonrecv (s : Server) (e : SrvEv) (h : ∀ src p, e ≠ .recv
   | dl a =>
     have hd := dl_frame s a
     show (s.dl a).1.conns = s.conns ∧ (s.dl a).1.nextId = s.nextId ∧ (s.dl a).1.maxSessions = s.maxSessions
+    rw [hd]; exact ⟨rfl, rfl, rfl⟩
+  | fsr db a =>
+    have hd := (fsr_frame s db a).1
+    show (s.fsr db a).1.conns = s.conns ∧ (s.fsr db a).1.nextId = s.nextId ∧ (s.fsr db a).1.maxSessions = s.maxSessions
     rw [hd]; exact ⟨rfl, rfl, rfl⟩
   | powerOn => exact ⟨(power_frame s).1, (power_frame s).2.1, (power_frame s).2.2.2.2.2.2.1⟩
   | powerOff => exact ⟨(power_frame s).2.2.2.1, (power_frame s).2.2.2.2.1, (power_frame s).2.2.2.2.2.2.2⟩
@@ -1042,6 +1019,7 @@ def IsEscape : SrvEv → Prop
   | .tick _ _ _ _ _ _ => True
   | .fileDelete => True
   | .folderDelete => True
+  | .fsr true _ => True          -- file-system requests on database/ (delete, restore of a deleted copy, folder delete ...)
   | .recv _ (.sql _ .encrypt) => True
   | _ => False
 
@@ -1073,6 +1051,10 @@ theorem apply_compromised_persists (s : Server) (e : SrvEv) (hne : ¬ IsEscape e
       simp only [SrvEv.apply, Server.receive]
       split <;> exact h
   | dl a => rw [show (SrvEv.dl a).apply s = (s.dl a).1 from rfl, dl_frame s a]; exact h
+  | fsr db a =>
+    cases db with
+    | true => exact absurd trivial hne
+    | false => rw [show (SrvEv.fsr false a).apply s = (s.fsr false a).1 from rfl, (fsr_frame s false a).2 rfl]; exact h
   | reinstall cfg =>
     -- a re-install goes through only while there is no live file: COMPROMISED data makes the constructor raise
     have hf := reinstall_frame s cfg
@@ -1098,6 +1080,7 @@ def Op.keepsCompromised : Op → Bool
   | .tick _ _ _ => false
   | .fileDelete => false
   | .folderDelete => false
+  | .fsr true _ => false
   | .dm _ .encrypt _ _ _ => false
   | .ransomReq _ .encrypt => false
   | .rawQuery _ _ .encrypt => false
@@ -1127,6 +1110,11 @@ theorem keepsCompromised_no_escape (op : Op) (h : op.keepsCompromised = true) (e
   | rawDisconnect i cid => exact not_escape_disc ha
   | rawJunk i k => obtain ⟨j, k', rfl⟩ := ha; exact id
   | dl a => simp only [OpAllows] at ha; subst ha; exact id
+  | fsr db a =>
+    simp only [OpAllows] at ha; subst ha
+    cases db with
+    | true => simp [Op.keepsCompromised] at h
+    | false => exact id
   | svcInstall cfg => simp only [OpAllows] at ha; subst ha; exact id
   | co k => exact absurd ha id
   | hDisconnect hd => exact not_escape_disc ha
@@ -1272,6 +1260,7 @@ theorem traffic_events (op : Op) (h : op.isTraffic = true) (e : SrvEv) (ha : OpA
     · exact Or.inl (hq ha)
   | rawJunk i k => obtain ⟨j, k', hj⟩ := ha; exact Or.inl ⟨j, _, hj⟩
   | dl a => simp [Op.isTraffic] at h
+  | fsr db a => simp [Op.isTraffic] at h
   | svcInstall cfg => simp [Op.isTraffic] at h
   | co k => simp [Op.isTraffic] at h
   | folderDelete => simp [Op.isTraffic] at h
@@ -1329,45 +1318,7 @@ theorem C17_unavailable_connect_query (st : State) (i : Nat)
   · intro cid q
     simp [State.rawQuery, hs]
 
-/-! ## 9. The translated source equals the model (`Gen/DatabaseTr.lean`, harness/extract/database_tr.py)
-
-`_process_sql`, `_process_connect` and `IOSoftware.add_connection` are translated statement by statement from the source on
-every run; the theorems below prove the translated functions equal to the hand-written model for every server state and
-every argument.  A changed guard, operator, status code, branch order or written value in the source changes the generated
-definition and these proofs stop checking. -/
-
-set_option linter.unusedSimpArgs false in
-/-- `_process_sql` as translated = the model's `processSql`, and an answer carries the query's uuid (which is what the
-client counts as success) exactly when its status is 200. -/
-theorem C17_tr_process_sql (s : Server) (q : Sql) :
-    ((Gen.DatabaseTr.processSql s q).1, (Gen.DatabaseTr.processSql s q).2.1) = processSql s q ∧
-    (Gen.DatabaseTr.processSql s q).2.2 = ((Gen.DatabaseTr.processSql s q).2.1 == 200) := by
-  unfold Gen.DatabaseTr.processSql processSql
-  cases hf : s.file with
-  | none => simp
-  | some fh =>
-    by_cases hh : s.health = .good
-    · cases q <;> cases fh <;> simp [hh]
-    · simp [hh]
-
-set_option linter.unusedSimpArgs false in
-/-- `_process_connect` (with `add_connection` inlined) as translated = the model's `processConnect`, for every server
-state in which the id about to be issued is not in the table (uuid4 freshness; `C17_tr_fresh_of_wf`); the id is visible
-to the client only when `response` is true, and `response` is `status_code == 200`. -/
-theorem C17_tr_process_connect (s : Server) (owner : Nat) (pw : Option Nat) (hfresh : s.hasConn s.nextId = false) :
-    ((Gen.DatabaseTr.processConnect s owner pw).1, (Gen.DatabaseTr.processConnect s owner pw).2.1,
-      if (Gen.DatabaseTr.processConnect s owner pw).2.2.1 then (Gen.DatabaseTr.processConnect s owner pw).2.2.2 else none)
-      = processConnect s owner pw ∧
-    (Gen.DatabaseTr.processConnect s owner pw).2.2.1 = ((Gen.DatabaseTr.processConnect s owner pw).2.1 == 200) := by
-  unfold Gen.DatabaseTr.processConnect Gen.DatabaseTr.addConnection processConnect healthAcceptsConnect
-  have hfresh' : Server.hasConn { s with nextId := s.nextId + 1 } s.nextId = false := hfresh
-  by_cases h1 : s.op = .running
-  · by_cases h3 : s.password = pw
-    · by_cases h4 : s.maxSessions ≤ s.conns.length
-      · cases hh : s.health <;> simp [h1, h3, h4, hh]
-      · cases hh : s.health <;> simp [h1, h3, h4, hh, hfresh', Server.hasConn] <;> simp_all [Server.hasConn]
-    · cases hh : s.health <;> simp [h1, h3, hh]
-  · simp [h1]
+/-! ## 9. (the theorems about the translated source are in Props/C17Recv.lean, C17Ftp.lean, C17Client.lean) -/
 
 /-- The freshness hypothesis holds in every well-formed state, hence (`C17_table_wellformed_run`) along every run. -/
 theorem C17_tr_fresh_of_wf (s : Server) (h : s.WF) : s.hasConn s.nextId = false := by
